@@ -495,7 +495,7 @@ def run(tier, seed, replay=None):
             for name in ("small", "examples"):
                 plan.append((name, len4, "sample of %d histories of length 4" % len(len4)))
         sub = single_histories(SUB_ALPHABET, 3 if tier == "thorough" else 2)
-        nsample = 300 if tier == "thorough" else 40
+        nsample = 300 if tier == "thorough" else 24
         plan.append(("big", sub + rnd.sample(singles, nsample),
                      "big graph: all histories <= %d over the 7 ShExC/profile ops + %d sampled from the full alphabet"
                      % (3 if tier == "thorough" else 2, nsample)))
